@@ -387,12 +387,15 @@ func (c *SimpleBreaker) Do(f func() error) (bool, error) {
 		return status.Closed, status.Error
 	}
 	var err error
-	if status.Closed || status.Disabled {
+	// A disabled breaker lets everything through, and we have to
+	// say so: callers (Throttle) retry when told "not attempted".
+	attempted := status.Closed || status.Disabled
+	if attempted {
 		if f != nil {
 			err = f()
 		}
 	}
-	return status.Closed, err
+	return attempted, err
 }
 
 // GoroutineBreaker makes a SimpleBreaker based on goroutine count.
